@@ -136,6 +136,9 @@ Inductive op :=
 | OPlacement                                     (* storage alignment over all placements of the vector *)
 | OIterNth (ik : iterkind) (v : nat) (pat : list (bool * N))   (* Iterator::nth / nth_back calls *)
 | OLazyDown (depth : N) (v : nat) (idx : N)      (* vecs[v].at(idx).lazy_clone()^depth .downcast::<T>() *)
+| OCloneIn (v : nat) (bk : bkind) (k : N)        (* let mut c = vecs[v].clone_empty_in(<bk>); k pushes of fresh values; read back;
+                                                    c.clone() dropped (Cloneable only); pop() dropped; c dropped - the clone lives in
+                                                    the caller's frame (its backend type differs from the world's) *)
 | OCursorMax (a : api) (pat : list bool).        (* drain(usize::MAX-3..) of a zero-sized-element vector of length
                                                     usize::MAX, consumed by pat, then leaked: the cursor at the very
                                                     end of the index space *)
@@ -476,6 +479,31 @@ Fixpoint make_items (c : cfg) (rk : rkind) (n : nat) (i : N) (wrong_at : option 
 
 Definition known_of (a : api) : bool := match a with Typed => true | Erased => false end.
 
+(** [vecs[n].clone()], the clone dropped at once (the world's vectors are untouched) *)
+Definition clone_and_drop (c : cfg) (n : nat) : M world unit :=
+  fun w => match get_vec n w with None => Panic PAssert w | Some cv =>
+           match clone_vec c cv (cv, wuw w) with
+           | Ok _ (cl, u) =>
+               match drop_vec c (cl, u) with
+               | Ok _ (_, u') => Ok tt {| wv := wv w; wuw := u' |}
+               | Panic p (_, u') => Panic p {| wv := wv w; wuw := u' |}
+               | Fault f => Fault f
+               end
+           | Panic p (_, u) => Panic p {| wv := wv w; wuw := u |}
+           | Fault f => Fault f
+           end end.
+(** what the caller does with a vector it obtained from [clone_empty_in], held in scratch slot [n] *)
+Definition clone_in_body (c : cfg) (n : nat) (k : N) : M world (list N) :=
+  do cv <- peek_vec n;
+  repeat_m (N.to_nat k) (do o <- make_offer c SWrap; offer_into c n o (push_unchecked c));;
+  do cv2 <- peek_vec n;
+  do xs <- match snapshot c cv2 with Some xs => ret xs | None => fault_ FDecode end;
+  (if c_cl c then clone_and_drop c n else ret tt);;
+  do oh <- temp_open c n TPop 0;
+  match oh with Some h => on_vec n (temp_drop c false h) | None => ret tt end;;
+  do cv3 <- peek_vec n;
+  ret (vlen cv :: vcap cv :: xs ++ [vlen cv3]).
+
 (** ** Meaning of one step: returns (outcome code, returned values).
     outcome 0 = ok, 1 = None. *)
 Definition exec (c : cfg) (o : op) : M world (N * list N) :=
@@ -708,6 +736,22 @@ Definition exec (c : cfg) (o : op) : M world (N * list N) :=
       do bs <- elem_bytes c v idx;
       do x <- lazy_down c v bs;
       ret (0, [x])
+  | OCloneIn v bk k =>
+      do sv <- peek_vec v;
+      fun w =>
+        let n := length (wv w) in        (* scratch slot: one past the end, removed again afterwards *)
+        let strip (w' : world) := {| wv := firstn n (wv w'); wuw := wuw w' |} in
+        match mem_build c bk (sv, wuw w) with
+        | Ok _ (nv, u) =>
+            match (do r <- unwinding (clone_in_body c n k) (on_vec n (drop_vec c));
+                   on_vec n (drop_vec c);; ret r) (put_vec n (Some nv) u w) with
+            | Ok r w2 => Ok (0, r) (strip w2)
+            | Panic p w2 => Panic p (strip w2)
+            | Fault f => Fault f
+            end
+        | Panic p (_, u) => Panic p {| wv := wv w; wuw := u |}
+        | Fault f => Fault f
+        end
   | OCursorMax _ pat =>
       let k0 := {| ci := usize_max - 3; ce := usize_max |} in
       let fix go (pat : list bool) (k : cursor) : list N :=
